@@ -434,6 +434,11 @@ def worker(args) -> dict:
                 o = evaluate(ms)
                 note(ms, o, kind)
                 relayout(ms, o, r1, r2)
+    elif stream == "types":
+        te = c02_gen.TypedEntityGen(rng)
+        while evals < n:
+            src = te.program()
+            note(src, evaluate(src), "types")
     elif stream == "sweep":
         for (i, a, fi) in extra:
             mn, nm = SWEEP[i]
